@@ -6,10 +6,10 @@ LIFE = "explicit-state BFS over operation histories of the real regions (state =
 CLAIMED = {
     "C01": dict(technique=LIFE + "; every catalogue entry x large value alphabet x every admissible input form x contexts of <=1/2 earlier pushes",
         text="Every value of the large alphabet in every input form the type checker admits, pushed first / after one or two earlier pushes, on ~60 region compositions; the read item is checked through every accessor (len, is_empty, get, iter, into_iter, into_owned, Debug, UTF-8 validity).",
-        note="Coded regions are explored in generation 0 here; their contract after merge_regions is C06/C07. Zero-sized-element entries run without state matching on a reduced alphabet.", ref="DESIGN.md §4 C01"),
+        note="A second family explores the small alphabet in every form to depth 4/5 (items first / middle / last in storage, after index-compression switches). Coded regions are explored in generation 0 here; their contract after merge_regions is C06/C07. Zero-sized-element entries run without state matching on a reduced alphabet.", ref="DESIGN.md §4 C01"),
     "C02": dict(technique=LIFE + "; ops push/reserve_items/reserve_regions/clear, all issued indices re-read after every step",
         text="All interleavings up to the depth bound plus every placement of <=1/2 deviations in long default runs; after every operation every index issued since the last clear is re-read against the value model.",
-        note="Capacities are not part of the state fingerprint: histories that differ only in reserved capacity are merged; long runs (no state matching) cover growth/reallocation.", ref="DESIGN.md §4 C02"),
+        note="Capacities are not part of the state fingerprint: histories that differ only in reserved capacity are merged; long runs (no state matching) cover growth/reallocation. Coded regions after merge_regions (shared partial Huffman byte, dictionary codes) are explored by the Huffman and dictionary machines, which are part of this check too.", ref="DESIGN.md §4 C02"),
     "C03": dict(technique="explicit-state BFS + deviation-bounded long runs on the real FlatStack<R, C> for every admissible index container, against a Vec of values; both build profiles",
         text="Ops copy (owned / by reference), extend (0/1/3 values), from_iter rebuild, clear, reserve, clone / clone_from replacement, merge_capacity, with_capacity; after every step len, is_empty, get(i) for all i, get(len) and get(len+1) must panic, iter / &stack iteration order and count, iterator cloned mid-way, size hints valid at every step (exact for vector indices), Debug equals the list of its own items, from_iter equals repeated copy. MirrorRegion<usize> stacks drive arbitrary usize sequences (the C05 alphabet) through the index containers via the public API.",
         note="Copy forms are limited to owned and by-reference (input forms are C20's subject).", ref="DESIGN.md §4 C03"),
@@ -24,13 +24,13 @@ CLAIMED = {
         note="Float-bearing compositions are not Ord and are excluded.", ref="DESIGN.md §4 C15"),
     "C17": dict(technique="exhaustive enumeration (no state matching, capacity is state) of start state x batch x pre-sizing route on the real vector-backed regions and FlatStacks, with a thread-local counting allocator; finite sweep of the logarithmic bound",
         text="Start states of <=2 pushes x every batch of <=2/3 items (incl. a 300-element item) x routes {every reserve_items form, reserve_regions, merge_regions([batch]), merge_regions([self, batch]), FlatStack::merge_capacity, reserve, with_capacity}: the capacities reported by heap_size must not change while exactly the announced contents are pushed, and for plain-data payloads the allocator is not called. Without pre-sizing: n = 2^6..2^10/2^14 pushes in 3 patterns cost at most storages x (ceil(log2 bytes) + 2) allocator calls.",
-        note="The logarithmic part is a finite sweep of a parametric bound, as the property's own quantifier states.", ref="DESIGN.md §4 C17"),
+        note="Two measurement windows per case: the by-reference input form (the harness allocates nothing) and the owned canonical form (the harness-side cost, cloning the inputs, is measured separately and subtracted). Array reserve forms announce the two-element items only. The logarithmic part is a finite sweep of a parametric bound, as the property's own quantifier states.", ref="DESIGN.md §4 C17"),
     "C18": dict(technique=LIFE + " with an exact reference storage model: number, order and exact used bytes of every heap_size callback",
         text="After every push / clear / reserve_items / merge_regions: used <= capacity for every pair; the callbacks match the composition's storages one by one (every branch contributes) with exactly the bytes the model stores (payload after deduplication, one index entry per slice element / row cell, documented index compression); total used never decreases on push; after clear no capacity shrinks.",
-        note="Exact equality is stronger than the property's lower bound; it holds on the current tree for every non-coded composition. Coded regions: only used <= capacity and monotonicity (Huffman's heap_size is an explicit todo!() stub and is excluded).", ref="DESIGN.md §4 C18"),
+        note="Exact equality is stronger than the property's lower bound; it holds on the current tree for every non-coded composition. Coded regions: only used <= capacity and monotonicity (Huffman's heap_size is an explicit todo!() stub and is excluded). FlatStacks: region storages by the same model followed by the index container's callbacks (exact for vector and dense indices); at clear no callback may disappear and no capacity shrink.", ref="DESIGN.md §4 C18"),
     "C04": dict(technique=LIFE + " on the string-bearing compositions with clear/clone/clone_from/serde/merge replacement ops; plus a finite syntactic audit of src/**/*.rs for the program-text half",
         text="Dynamic half: every &str reachable through index/get/iteration is validated with str::from_utf8 and compared byte-for-byte with the model string after every step. Program-text half: exhaustive enumeration of every unsafe token, every *unchecked* identifier, every impl Push<_> for StringRegion, blanket Push impls and writes to StringRegion.inner (an audit, not model checking; reported separately in the evidence).",
-        note="The audit is syntactic (comment/string-stripped token scan); it trusts rustc's privacy rules for the private field.", ref="DESIGN.md §4 C04"),
+        note="The audit is syntactic (comment/string-stripped token scan); it trusts rustc's privacy rules for the private field. Dictionary-coded string regions are explored across merge_regions generations; a push refused after a merge ends the branch (refusal legitimacy is C07's subject).", ref="DESIGN.md §4 C04"),
     "C05": dict(
         technique="explicit-state BFS over push/extend/clear/reserve histories of the real index containers with state matching + deviation-bounded long runs, against a Vec<usize> model and a u128 reference stride acceptor; both build profiles",
         text="Every history up to the stated depth over a transition-covering absolute + state-relative alphabet, and every placement of <=2 deviations in long strided/saturated/u32-crossing runs, executed on the real Stride, IndexList, IndexOptimized and Vec<usize>; after every step len/is_empty/index(i)/iter/cloned iter are compared with the pushed sequence and Stride::push verdicts with the documented pattern.",
@@ -44,15 +44,15 @@ CLAIMED = {
         note="The >1024-distinct-strings scenarios are scripted seed states (labelled so), explored exhaustively only for 1-3 further steps.", ref="DESIGN.md §4 C07"),
     "C08": dict(technique=LIFE + "; a Default twin is created at every clear and driven in lock-step",
         text="For every (history before clear, history after clear) up to the bound: indices returned after the clear equal those of the fresh twin and both read the model values.",
-        note="Capacities are deliberately not compared.", ref="DESIGN.md §4 C08"),
+        note="Capacities are deliberately not compared. FlatStack::clear is covered by the FlatStack machine, including stacks whose coded region was built by merge_capacity (after clear every copy must be accepted again).", ref="DESIGN.md §4 C08"),
     "C10": dict(technique=LIFE + "; twin never sees reserve_* calls and is Default after every merge_regions",
         text="reserve_items (every form, three batches), reserve_regions (three scripted sources), merge_regions over five source sets interleaved with pushes and clears; indices and reads compared with the never-reserving / default twin after every step.",
-        note="Coded regions take part without merge (C06/C07 cover their merges). FlatStack::reserve/with_capacity/merge_capacity are covered by the FlatStack machine when it exists.", ref="DESIGN.md §4 C10"),
+        note="Coded regions take part with merge_regions as well: after a merge only the reads are compared with the default twin and a refused push ends the branch (C06/C07 decide refusal legitimacy). FlatStack::reserve / with_capacity / merge_capacity are covered by the FlatStack machine.", ref="DESIGN.md §4 C10"),
     "C12": dict(technique=LIFE + " on consecutive-pair, columns and vector regions with a push counter oracle",
         text="The k-th push since creation/clear/merge_regions returns k, and index k reads the k-th value with exactly its own length and cells (rows 0..3 wide in every order), for each offset container.", note="", ref="DESIGN.md §4 C12"),
     "C13": dict(technique=LIFE + " with a per-state oracle probing every position 0..len+2 of every issued item in both representations",
         text="Every state reachable by <=3/4 pushes of items of length 0..3 on all slice/columns compositions; get(i) must equal the model for i < len and panic for i >= len, region-backed and borrowed-from-owned.",
-        note="FlatStack::get is covered by the FlatStack machine (C03).", ref="DESIGN.md §4 C13"),
+        note="FlatStack::get(i) for i >= len is probed by the FlatStack machine for every index container (part of this check).", ref="DESIGN.md §4 C13"),
     "C14": dict(technique=LIFE + " with a per-state oracle for the IntoOwned laws; region-to-region copies through the read-item input forms",
         text="For every issued item x in every state: into_owned(x) = v, borrow_as(&o) reads like x, reborrow(x) reads like x, clone_onto(x, t) = v for every t of the alphabet (shorter, longer, other variant), from both representations; pushing x or borrow_as(&o) into another region is a regular input form (read_item / borrowed_item).", note="", ref="DESIGN.md §4 C14"),
     "C16": dict(technique=LIFE + "; twin := serde_json round trip at an arbitrary point, then lock-step; index containers through their own machine",
